@@ -184,6 +184,26 @@ def impl_functions():
             ty_._prefixes = {}
     fs['ttl_parse_elem'] = parse_elem
 
+    def prefix_line(strs, flag, opt, num=0):
+        ty_._prefixes = {}
+        try:
+            ty_._process_prefix_line(strs[0])
+            (k_, v_), = ty_._prefixes.items()
+            return k_ + "\x01" + v_
+        finally:
+            ty_._prefixes = {}
+    fs['ttl_process_prefix_line'] = prefix_line
+
+    def base_line(strs, flag, opt, num=0):
+        ty_._base = None
+        try:
+            ty_._process_base_line(strs[0])
+            return ty_._base
+        finally:
+            ty_._base = None
+    fs['ttl_process_base_line'] = base_line
+    fs['ttl_check_directive_alone_in_its_line'] = lambda strs, flag, opt, num=0: (ty_._check_directive_alone_in_its_line(strs[0], strs[1:], num), "")[1]
+
     def expand(strs, flag, opt, num=0):
         ty_._prefixes = dict(zip(strs[1::2], strs[2::2]))
         return ty_._expand_prefixed_datatype_if_needed(strs[0])
@@ -217,7 +237,7 @@ NT_PIECES = ['<http://e/a>', '<http://e/b#x>', '<', '>', '"', '"', '\\"', '\\\\'
 
 
 TTL_FUNCS = ['ttl_remove_comments_if_needed', 'ttl_find_next_blank', 'ttl_count_prior_backslashes', 'ttl_find_next_unescaped_quotes',
-             'ttl_find_next_quoted_literal_ending', 'ttl_expand_prefixed_datatype_if_needed', 'ttl_parse_cornered_element', 'ttl_next_line_token', 'ttl_next_line_token', 'ttl_clean_line', 'ttl_is_num_literal', 'ttl_parse_elem', 'ttl_parse_elem']
+             'ttl_find_next_quoted_literal_ending', 'ttl_expand_prefixed_datatype_if_needed', 'ttl_parse_cornered_element', 'ttl_next_line_token', 'ttl_next_line_token', 'ttl_clean_line', 'ttl_is_num_literal', 'ttl_parse_elem', 'ttl_parse_elem', 'ttl_process_prefix_line', 'ttl_process_base_line', 'ttl_check_directive_alone_in_its_line']
 TTL_PIECES = ['"', '"', '\\"', '\\\\', '\\', ' #', ' # c', '#', ' ', ' ', 'ex:a', 'ex:p', '<http://e/x>', '^^', '^^xsd:int', '^^<http://e/dt>', '^^ex:dt', '@en', '@en-GB',
               ' .', ' ;', ' ,', '.', 'a', 'é', '12', '_:b', ':', "'", '\u2028']
 
@@ -240,6 +260,16 @@ def gen_ttl(rng):
         return "F %s 0 N %s" % (name, " ".join(enc(x) for x in strs)), (name, strs, False, None, 0)
     if name == 'ttl_remove_comments_if_needed':
         return "G %s 0 %s" % (name, enc(line)), (name, [line], False, None, 0)
+    if name in ('ttl_process_prefix_line', 'ttl_process_base_line', 'ttl_check_directive_alone_in_its_line'):
+        words = [rng.choice(['@prefix', '@base', 'ex:', 'ex', ':', '<http://e/ns#>', '<http://e/>', '<x', 'y>', '.', '.', '', ';', 'ex:a']) for _ in range(rng.randint(0, 6))]
+        if rng.random() < 0.6:
+            words = (['@prefix', rng.choice(['ex:', 'ex', ':', '']), rng.choice(['<http://e/ns#>', '<>', '<x', 'http://e/'])] if name != 'ttl_process_base_line'
+                     else ['@base', rng.choice(['<http://e/dir/>', '<x', ''])]) + rng.choice([['.'], ['.'], [], ['.', 'ex:a'], [';']])
+        ln_ = " ".join(words)
+        if name == 'ttl_check_directive_alone_in_its_line':
+            num = rng.choice([3, 4, len(words)])
+            return "H %s 0 %d N %s" % (name, num, " ".join(enc(x) for x in [ln_] + words)), (name, [ln_] + words, False, None, num)
+        return "H %s 0 0 N %s" % (name, enc(ln_)), (name, [ln_], False, None, 0)
     if name == 'ttl_clean_line':
         raw = "".join(rng.choice(['ex:s', ' ', '  ', '   ', '\t', '\r', '\n', '"a # b"', '"', '\\"', ' #', '# c', ' # c', '.', ';', 'é', '\x0b', '\xa0']) for _ in range(rng.randint(0, 8)))
         return "G %s 0 %s" % (name, enc(raw)), (name, [raw], False, None, 0)
